@@ -20,6 +20,7 @@ RULE = (
     "non-trivial when it has at least 2 notes; distinct by canonical JSON of (text, expected notes)."
     ' Round 5: two passes over one object alive at once, advanced alternately.'
     ' Round 6: construction by keyword, sections of 257-330 measures, compact layout (separator on a row line).'
+    ' Round 7: inexact beats of equal value built before decoding.'
 )
 ASSUMPTIONS = ["the generator renders cells to text faithfully", "fractions.Fraction is exact"]
 MONITORS = ["decode", "repeat_iteration", "interleaved_iteration", "ordering_ops", "str_identity", "columns", "via_chart"]
